@@ -164,6 +164,7 @@ func ambReset(seed uint64) {
 	xsimrt.ResetOnceTable()
 	xsimrt.ResetWGTable()
 	xsimrt.ResetChanTable()
+	xsimrt.ResetCondTable()
 	if !amb.on {
 		return
 	}
